@@ -24,6 +24,7 @@ import (
 	"math/rand"
 	"os"
 	"path/filepath"
+	"runtime"
 	"runtime/debug"
 	"sort"
 	"strings"
@@ -92,6 +93,8 @@ type c13Target struct {
 	Bounds []int64              // structure boundaries (offsets at which a structure starts/ends)
 	// KeyBounds: boundaries of the structures a lookup of key k touches (its table entry, its entry)
 	KeyBounds func(k int) []int64
+	// MustKeys: keys that are part of every key sample (e.g. addresses with a chain of several records)
+	MustKeys []int
 	// limits (set by the part)
 	ExhaustBelow int64 // files up to this size are cut at every offset
 	NRandom      int
@@ -149,6 +152,7 @@ type c13Rec struct {
 	*ev.Recorder
 	mu   sync.Mutex
 	seen map[string]int
+	nRes int
 }
 
 func c13NewRec(part string) *c13Rec {
@@ -165,6 +169,19 @@ func (r *c13Rec) violation(key, detail string, replay any) {
 	} else {
 		r.Count("further_occurrences:"+key, 1)
 	}
+}
+
+func c13ResourceErr(s string) bool {
+	return strings.Contains(s, "too many open files") || strings.Contains(s, "cannot allocate memory")
+}
+
+// resourceErr counts a resource-exhaustion error; true for the first one (reported once per part).
+func (r *c13Rec) resourceErr() bool {
+	r.Count("resource_exhaustion_errors_skipped", 1)
+	r.mu.Lock()
+	defer r.mu.Unlock()
+	r.nRes++
+	return r.nRes == 1
 }
 
 // enough: stop generating cases when many distinct keys fired or many parts are inconclusive.
@@ -226,21 +243,43 @@ func c13Cuts(t *c13Target, rng *rand.Rand, keyIdx []int) (cuts []int64, exhausti
 		add(d)
 		add(t.Size - 1 - d)
 	}
+	// structure boundaries: the file's own ones and those of the must-keys first, then the sampled keys
 	bounds := append([]int64(nil), t.Bounds...)
+	isMust := map[int]bool{}
 	if t.KeyBounds != nil {
-		for _, k := range keyIdx {
-			bounds = append(bounds, t.KeyBounds(k)...)
+		for _, k := range t.MustKeys {
+			if k >= 0 && k < len(t.Keys) && !isMust[k] {
+				isMust[k] = true
+				bounds = append(bounds, t.KeyBounds(k)...)
+			}
 		}
 	}
-	if t.MaxCuts > 0 && len(bounds)*5 > t.MaxCuts {
-		// more boundaries than the budget: seed-chosen subset, first and last kept
-		sort.Slice(bounds, func(i, j int) bool { return bounds[i] < bounds[j] })
-		keep := []int64{bounds[0], bounds[len(bounds)-1]}
-		for _, i := range rng.Perm(len(bounds)) {
-			if len(keep)*5 >= t.MaxCuts*3/4 {
+	nPrio := len(bounds)
+	if t.KeyBounds != nil {
+		for _, k := range keyIdx {
+			if !isMust[k] {
+				bounds = append(bounds, t.KeyBounds(k)...)
+			}
+		}
+	}
+	if t.MaxCuts > 0 && len(bounds)*5 > t.MaxCuts*3/4 {
+		// more boundaries than the budget: the priority ones (at most half of the budget, seed-chosen
+		// if there are more), then a seed-chosen subset of the others
+		budget := t.MaxCuts * 3 / 4 / 5
+		prio, rest := bounds[:nPrio], bounds[nPrio:]
+		var keep []int64
+		if len(prio) > budget/2 {
+			for _, i := range rng.Perm(len(prio))[:budget/2] {
+				keep = append(keep, prio[i])
+			}
+		} else {
+			keep = append(keep, prio...)
+		}
+		for _, i := range rng.Perm(len(rest)) {
+			if len(keep) >= budget {
 				break
 			}
-			keep = append(keep, bounds[i])
+			keep = append(keep, rest[i])
 		}
 		bounds = keep
 	}
@@ -259,7 +298,7 @@ func c13Cuts(t *c13Target, rng *rand.Rand, keyIdx []int) (cuts []int64, exhausti
 	return t.shard(order), false
 }
 
-func c13KeySample(n, max int, rng *rand.Rand) []int {
+func c13KeySample(n, max int, rng *rand.Rand, must []int) []int {
 	idx := make([]int, 0, n)
 	if max <= 0 || n <= max {
 		for i := 0; i < n; i++ {
@@ -269,6 +308,12 @@ func c13KeySample(n, max int, rng *rand.Rand) []int {
 	}
 	seen := map[int]bool{0: true, n - 1: true}
 	idx = append(idx, 0, n-1)
+	for _, k := range must {
+		if k >= 0 && k < n && !seen[k] {
+			seen[k] = true
+			idx = append(idx, k)
+		}
+	}
 	for len(idx) < max {
 		k := rng.Intn(n)
 		if !seen[k] {
@@ -313,7 +358,7 @@ func c13Sweep(rec *c13Rec, t *c13Target) {
 		rec.Inconclusive(fmt.Sprintf("%s: no stored keys", t.name()))
 		return
 	}
-	keyIdx := c13KeySample(len(t.Keys), t.MaxKeys, rng)
+	keyIdx := c13KeySample(len(t.Keys), t.MaxKeys, rng, t.MustKeys)
 	if c13ReplayCase != nil && c13ReplayCase.Key >= 0 && c13ReplayCase.Key < len(t.Keys) {
 		keyIdx = []int{c13ReplayCase.Key}
 	}
@@ -367,6 +412,14 @@ func c13Sweep(rec *c13Rec, t *c13Target) {
 			rec.Distinct(t.Site + "|" + region + "|open-panic")
 			continue
 		}
+		if oerr != nil && c13ResourceErr(oerr.Error()) {
+			// the process ran out of descriptors / mappings: says nothing about the truncated file
+			if rec.resourceErr() {
+				rec.Inconclusive(fmt.Sprintf("%s cut at %d: resource exhaustion in the test process, not a verdict: %v", t.name(), c, oerr))
+			}
+			runtime.GC()
+			continue
+		}
 		if oerr != nil {
 			// loud at open time: every key is answered with an error
 			rec.Eval(1)
@@ -382,6 +435,13 @@ func c13Sweep(rec *c13Rec, t *c13Target) {
 			var got c13Ans
 			if p := c13Guard(func() { got = h.Lookup(k) }); p != "" {
 				got = c13Ans{c13Panic, p}
+			}
+			if got.Class == c13Err && c13ResourceErr(got.Val) {
+				if rec.resourceErr() {
+					rec.Inconclusive(fmt.Sprintf("%s cut at %d: resource exhaustion in the test process, not a verdict: %s", t.name(), c, got.Val))
+				}
+				runtime.GC()
+				continue
 			}
 			rec.Eval(1)
 			switch {
